@@ -252,7 +252,9 @@ func judgeC04Api(c C04ApiCase) *Fail {
 		// behind biases the relation is judged only where the unchanged code is listing-order independent by
 		// construction: biases that do not consume random numbers per alternative in listing order (everything but
 		// fatigue) on requests whose numbers are exact in binary (importance sums run in listing order)
-		if !exactRequest(v) {
+		// ... and only behind ONE bias: a second bias sums the values the first one produced (a mixed criterion's
+		// thirds), which are no longer exact, and a tie between two importance sums is then broken by rounding noise
+		if !exactRequest(v) || len(v.biasNames()) != 1 {
 			return nil
 		}
 		for _, b := range v.biasNames() {
